@@ -860,7 +860,9 @@ func (n *MJMLNode) GetMixedContent() string {
 				result.WriteString(" ")
 				result.WriteString(attr.Name.Local)
 				result.WriteString("=\"")
-				result.WriteString(attr.Value)
+				// the value was delimited by either kind of quote in the source; written between double
+				// quotes, a double quote inside it has to be escaped
+				result.WriteString(strings.ReplaceAll(attr.Value, "\"", "&quot;"))
 				result.WriteString("\"")
 			}
 			if isVoidHTMLElement(tag) {
